@@ -44,7 +44,7 @@ pub fn meta() -> PropMeta {
     rule: "cells: every cell of every nside 1..=64 (quick) / 1..=300 (thorough) enumerated, plus generated (nside, cell) with nside from classes {1..=64, primes, 2^k, 2^k+-1, odd/even mid-size, huge up to 2^29 incl. the first values where 1+2h > 2^53} and cells from ring-boundary classes; positions: the 5-class position generator x the same nside classes; non-trivial = nside not a power of two, or position on lon = k*pi/2 / a pole / within 2^-40 of a cell border, or a first/last cell of a ring; distinct by (nside, cell) / (nside, lon bits, lat bits)",
     assumptions: vec![
       "reference = integer lattice model for any nside (ring order by definition), reference projection, tau as in C01".into(),
-      "hash_with_dxdy offsets are accepted in [-1e-9, 1+1e-9]".into(),
+      "hash_with_dxdy offsets are accepted in [-t, 1+t] with t = 1e-9 + 2^-50*nside (the rounding of a plane coordinate times nside)".into(),
     ],
   }
 }
@@ -159,7 +159,9 @@ pub fn check_pos(c: &PosCase, rec: &mut Rec) -> Result<(), Violation> {
   if h2 != h {
     return Err(f(Violation::new("dxdy_hash", "mismatch", format!("hash_with_dxdy gives cell {} but hash gives {}", h2, h))));
   }
-  if !(dx.is_finite() && dy.is_finite() && dx >= -1e-9 && dx <= 1.0 + 1e-9 && dy >= -1e-9 && dy <= 1.0 + 1e-9) {
+  // offsets carry the rounding of the plane coordinates (ulp(8) = 2^-50) multiplied by nside
+  let otol = 1e-9 + (2.0f64).powi(-50) * n as f64;
+  if !(dx.is_finite() && dy.is_finite() && dx >= -otol && dx <= 1.0 + otol && dy >= -otol && dy <= 1.0 + otol) {
     return Err(f(Violation::new("dxdy_range", "out_of_range", format!("ring::hash_with_dxdy({}, {:e}, {:e}) = ({}, {:e}, {:e})", c.nside, lon, lat, h2, dx, dy))));
   }
   if dx >= 0.0 && dx < 1.0 && dy >= 0.0 && dy < 1.0 {
